@@ -77,8 +77,9 @@ ChildState(pre, e) ==
    lo |-> SetOf(e.off), ln |-> e.norep, lv |-> e.pv, ldg |-> e.dg, seen |-> <<>>]
 
 \* C18: the digests (of the complete observation) of the children seen so far, per action
-Remember(st, a, dg) ==
-  [st EXCEPT !.seen = [x \in DOMAIN st.seen \cup {a} |-> IF x = a THEN dg ELSE st.seen[x]]]
+\* (a pair: digest of the complete observation, digest of the move-generation answers only)
+Remember(st, a, dg, ldg) ==
+  [st EXCEPT !.seen = [x \in DOMAIN st.seen \cup {a} |-> IF x = a THEN <<dg, ldg>> ELSE st.seen[x]]]
 
 ---------------------------------------------------------------------------
 (* Per-property conjuncts.  e = event, cs = adopted child state,           *)
@@ -355,9 +356,9 @@ TraceAct ==
         /\ StateConjuncts(e, cs)
         /\ (Enforced("C18") =>
               Chk("C18", "the same action from the same state gave a different observation",
-                  a \in DOMAIN pre.seen => pre.seen[a] = e.dg))
+                  a \in DOMAIN pre.seen => pre.seen[a][1] = e.dg))
         /\ stack' = IF e.push = 1
-                    THEN Append(Append(SubSeq(base, 1, Len(base) - 1), Remember(pre, a, e.dg)), cs)
+                    THEN Append(Append(SubSeq(base, 1, Len(base) - 1), Remember(pre, a, e.dg, e.ldg)), cs)
                     ELSE Append(SubSeq(base, 1, Len(base) - 1), cs)
   /\ l' = l + 1
 
@@ -373,7 +374,7 @@ TraceThreadDigest ==
                      SubSeq(e.dg, 1, 6) # "panic:")
               /\ Chk("C18", "concurrent expansion differs from the sequential expansion of the same state",
                      IF e.a = <<-2, 0>> THEN e.dg = pre.ldg    \* the thread observed the shared state itself
-                     ELSE e.a \in DOMAIN pre.seen /\ pre.seen[e.a] = e.dg))
+                     ELSE e.a \in DOMAIN pre.seen /\ pre.seen[e.a][IF e.light = 1 THEN 2 ELSE 1] = e.dg))
         /\ TLCSet(20, TLCGet(20) + 1)
         /\ stack' = base
   /\ l' = l + 1
